@@ -343,6 +343,28 @@ def mk_after_rejected_calls(spec: dict) -> Converter:
     return c
 
 
+def mk_sibling_same_list(spec: dict) -> Converter | None:
+    """Two converters are constructed from the SAME list object holding all records but the last; the sibling is extended
+    with a decoy record that claims the last record's canonical URI prefix under another name; then the converter under
+    test is completed with the last record. Constructing a converter must not tie it to the caller's list (nor to other
+    converters made from it), so the result denotes exactly ``spec``."""
+    recs = spec["records"]
+    d = spec.get("delimiter", ":")
+    if not recs:
+        return None
+    last = recs[-1]
+    shared = mk_records(recs[:-1])
+    sibling = Converter(shared, delimiter=d)
+    under_test = Converter(shared, delimiter=d)
+    taken_p = {x for r in recs for x in [r["prefix"], *r["prefix_synonyms"]]}
+    try:
+        sibling.add_record(Record(prefix=_fresh(taken_p, "decoy", d), uri_prefix=last["uri_prefix"]))
+    except Exception:  # noqa: BLE001
+        pass
+    under_test.add_record(mk_record(last), merge=True)
+    return under_test
+
+
 def history_variants(spec: dict, queries=None, *, base: bool = True):
     """(label, converter) pairs: the converter denoted by ``spec`` reached through every history this harness knows. All
     of them must answer every query identically (C05 / C09 / C10); the scalar properties are checked on each."""
@@ -359,5 +381,8 @@ def history_variants(spec: dict, queries=None, *, base: bool = True):
     rm = mk_remerged(spec)
     if rm is not None:
         yield "built at once, then every record merged into itself again case-insensitively", rm
+    sib = mk_sibling_same_list(spec)
+    if sib is not None:
+        yield "constructed from a list that a sibling converter (extended in between) was constructed from too, then completed", sib
     yield "built at once, then calls that must be rejected (bridging merges, clashing additions) were attempted", mk_after_rejected_calls(spec)
     yield "built at once, then used as input of chain / get_subconverter / remap_* / rewire / discover whose results were mutated", mk_bystander(spec)
